@@ -172,8 +172,13 @@ def wl_random(ctx, rng, case):
                 ctx.check(hf(k, 5) == hf(kb, 5), f"{name}: text key hashes differently from its UTF-8 bytes", key=k)
         if isinstance(k, bytes) or k.isascii():
             check_fnv_key(ctx, H, kb, rng.sample(SEEDS, 5), text=k if isinstance(k, str) else None)
-        else:
-            # non-ASCII text through FNV: only purity/prefix/range are claimed
+        # the default strategy is seeded FNV-1a per index for EVERY key type: default_fnv_1a(k, d)[i] == fnv_1a(k, i)
+        chain = H.default_fnv_1a(k, 6)
+        ctx.check(chain == [H.fnv_1a(k, i) for i in range(6)], "default_fnv_1a(key, d)[i] is not fnv_1a(key, i) (offset basis advanced by 31 per index)", key=k,
+                  got=chain, want=[H.fnv_1a(k, i) for i in range(6)])
+        ctx.count("default_strategy_vs_per_index_fnv")
+        if not (isinstance(k, bytes) or k.isascii()):
+            # non-ASCII text through FNV: the values themselves are not pinned by a reference, purity/prefix/range are
             for s in rng.sample(SEEDS, 3):
                 v = H.fnv_1a(k, s)
                 ctx.check(v == H.fnv_1a(k, s) and 0 <= v <= refimpl.M64, "fnv_1a impure or out of range on non-ASCII text", key=k, seed=s)
